@@ -135,9 +135,11 @@ impl<R: DynamicChannelRegion> RegionHandler for DynamicChannelPlan<R> {
                     // unused channels are set to 0
                     if value == 0 {
                         self.channels[index] = None;
-                    } else {
+                    } else if self.frequency_valid(value) {
                         self.channels[index] = Some(Channel::new(value, DR::_0, DR::_5));
                     }
+                    // an entry outside the region's band is ignored: the device
+                    // must never transmit there
                 }
             }
             // Type 1
